@@ -922,7 +922,7 @@ fn run_loop(rng: &mut Rng, tables: &[ATable], d: &ADef, rank: &BTreeMap<String, 
                         let reverted = before.iter().any(|(u, p)| !*p && after.contains(&(*u, true)));
                         let in_group = newly.iter().any(|u| us.iter().any(|s| rank.get(s) == Some(u)));
                         if pa >= pb || reverted || !in_group || before.len() != after.len() {
-                            st.oracle_failure(json!({"key": format!("loop-progress/{}", key), "what": "an Ok round did not move a URI of the group from Pending to Applied (or reverted one)", "before": format!("{:?}", before), "after": format!("{:?}", after), "uris": us}));
+                            st.oracle_failure(json!({"key": "extension:no-progress-round", "case": key, "what": "an Ok round did not move a URI of the group from Pending to Applied (or reverted one)", "before": format!("{:?}", before), "after": format!("{:?}", after), "uris": us}));
                         }
                         out.push((before, Some(after)));
                         font = new_font;
@@ -945,6 +945,181 @@ fn run_loop(rng: &mut Rng, tables: &[ATable], d: &ADef, rank: &BTreeMap<String, 
     out
 }
 
+// ---------------------------------------------------------------- extension loop with real glyph-keyed patches
+
+/// base font with maxp / head / loca / glyf (15 glyphs, short loca), as the crate's own patching tests use
+fn glyf_base_font(tables: &[(u8, Vec<u8>)]) -> Vec<u8> {
+    use write_fonts::tables::{head::Head, loca::Loca, maxp::Maxp};
+    let mut fb = FontBuilder::new();
+    for (tag, bytes) in tables {
+        fb.add_raw(if *tag == 0 { IFT_TAG } else { IFTX_TAG }, bytes.clone());
+    }
+    let maxp = Maxp { num_glyphs: 15, ..Default::default() };
+    fb.add_table(&maxp).unwrap();
+    let head = Head { index_to_loc_format: 0, ..Default::default() };
+    fb.add_table(&head).unwrap();
+    let glyf: Vec<u8> = vec![1, 2, 3, 4, 5, 0, 6, 7, 8, 0, 9, 10, 11, 12];
+    let (g0, g1, g8, end) = (0u32, 6u32, 10u32, 14u32);
+    let loca = vec![g0, g1, g8, g8, g8, g8, g8, g8, g8, end, end, end, end, end, end, end];
+    fb.add_table(&Loca::new(loca)).unwrap();
+    fb.add_raw(Tag::new(b"glyf"), glyf);
+    fb.build()
+}
+
+/// an uncompressed (NoopBrotliDecoder) glyph-keyed patch that changes no glyph
+fn noop_glyph_keyed_patch(cid: u32) -> Vec<u8> {
+    let payload = font_test_data::ift::noop_glyf_glyph_patches();
+    let mut b = BeBuffer::new().push(Tag::new(b"ifgk")).push(0u32).push(0u8).extend([0u32, 0, 0, cid]).push(payload.len() as u32);
+    for x in payload.as_slice() {
+        b = b.push(*x);
+    }
+    b.as_slice().to_vec()
+}
+
+fn table_bytes_of(font: &[u8], tag: u8) -> Option<Vec<u8>> {
+    let f = FontRef::new(font).ok()?;
+    f.table_data(if tag == 0 { IFT_TAG } else { IFTX_TAG }).map(|d| d.as_bytes().to_vec())
+}
+
+/// Real select -> fetch -> apply rounds with glyph-keyed patches on a font with glyf/loca/maxp (fonts whose
+/// entries are all glyph keyed; URIs may be shared within and across tables).  Each round is pushed as its own
+/// model case, with the applied bits read back from the real font.  Implementation-only oracle, every round:
+/// the result is Err, or at least one URI went Pending -> Applied; a round cap reports a no-progress loop.
+#[allow(clippy::too_many_arguments)]
+fn run_glyph_loop(rng: &mut Rng, tables0: &[ATable], d: &ADef, rank: &BTreeMap<String, i64>, st: &mut Stats, cw: &mut CaseWriter, key: &str) {
+    use shared_brotli_patch_decoder::NoopBrotliDecoder;
+    let mut tables: Vec<ATable> = tables0.to_vec();
+    for t in tables.iter_mut() {
+        t.applied.clear();
+    }
+    let mut font = glyf_base_font(&tables.iter().map(|t| (t.tag, t.bytes.clone())).collect::<Vec<_>>());
+    let rd = real_def(d);
+    let mut pd: HashMap<String, UriStatus> = HashMap::new();
+    let init = rng.below(5);
+    let cap = 12usize;
+    let mut finished = false;
+    for round in 0..cap {
+        let off = observe_offered(&font, &rd);
+        let sel = observe_select(&font, &rd);
+        st.evaluations += 2;
+        let (off, sel) = match (off, sel) {
+            (Ok(a), Ok(b)) => (a, b),
+            _ => {
+                st.oracle_failure(json!({"key": format!("extension:panic/{}", key), "what": "panic in selection during extension"}));
+                return;
+            }
+        };
+        let (Some(cands), Some(uris)) = (off.clone(), sel.clone()) else {
+            finished = true;
+            break;
+        };
+        if uris.is_empty() {
+            finished = true;
+            st.count("gloop.fixpoint");
+            break;
+        }
+        // fetch: a patch for every URI of the group that was never fetched, on behalf of the table the group keeps it for
+        for (k, u) in uris.iter().enumerate() {
+            if pd.contains_key(u) {
+                continue;
+            }
+            if round == 0 && init == 0 && k == 0 {
+                st.count("gloop.init_missing_uri");
+                continue;
+            }
+            let table = if cands.iter().any(|c| c.table == 0 && c.uri.as_ref() == Some(u)) { 0 } else { 1 };
+            let cid = tables.iter().find(|t| t.tag == table).map(|t| t.cid).unwrap_or(0);
+            if round == 0 && init == 1 && rng.chance(1, 2) {
+                pd.insert(u.clone(), UriStatus::Applied);
+                st.count("gloop.init_preapplied_uri");
+            } else {
+                pd.insert(u.clone(), UriStatus::Pending(noop_glyph_keyed_patch(cid)));
+            }
+        }
+        let before = snapshot(&pd, rank);
+        let fbytes = font.clone();
+        let rdc = rd.clone();
+        let pdref = &mut pd;
+        let res = catch(std::panic::AssertUnwindSafe(move || {
+            let f = FontRef::new(&fbytes).unwrap();
+            let g = PatchGroup::select_next_patches(f, &rdc).unwrap();
+            g.apply_next_patches_with_decoder(pdref, &NoopBrotliDecoder).map_err(|e| format!("{:?}", e))
+        }));
+        st.evaluations += 1;
+        let after = snapshot(&pd, rank);
+        let c_pd = |v: &PdObs| clist(v.iter(), |(u, p)| format!("({}, {})", cz(*u as i128), cbool(*p)));
+        let sel_ranks: Vec<i64> = uris.iter().map(|u| rank.get(u).copied().unwrap_or(-2)).collect();
+        let push_case = |cw: &mut CaseWriter, tables: &[ATable], after: Option<&PdObs>| {
+            cw.push(format!(
+                "({}, {}, {}, {}, [({}, {})])",
+                clist(tables.iter(), |t| c_table(t, rank)),
+                c_def(d),
+                copt(Some(clist(cands.iter(), |o| c_obs(o, rank)))),
+                copt(Some(czlist(sel_ranks.iter().map(|x| *x as i128)))),
+                c_pd(&before),
+                copt(after.map(|x| c_pd(x)))
+            ));
+        };
+        match res {
+            Err(p) => {
+                st.oracle_failure(json!({"key": format!("extension:panic/{}", key), "what": "panic in apply_next_patches", "panic": p}));
+                return;
+            }
+            Ok(Err(e)) => {
+                st.count(&format!("gloop.round_err.{}", e.split('(').next().unwrap_or("")));
+                if before != after {
+                    st.oracle_failure(json!({"key": format!("extension:err-mutates/{}", key), "what": "a failed round changed patch_data", "err": e}));
+                }
+                push_case(cw, &tables, None);
+                finished = true;
+                break;
+            }
+            Ok(Ok(new_font)) => {
+                st.count("gloop.round_ok");
+                let newly: Vec<i64> = before.iter().filter(|(u, p)| *p && after.contains(&(*u, false))).map(|x| x.0).collect();
+                let reverted = before.iter().any(|(u, p)| !*p && after.contains(&(*u, true)));
+                let in_group = newly.iter().any(|u| sel_ranks.contains(u));
+                push_case(cw, &tables, Some(&after));
+                if newly.is_empty() || reverted || !in_group {
+                    st.oracle_failure(json!({"key": "extension:no-progress-round", "what": "apply_next_patches returned Ok but no URI of the group went from Pending to Applied", "case": key, "round": round, "uris": uris, "before": format!("{:?}", before), "after": format!("{:?}", after), "def": format!("{:?}", d), "tables": format!("{:?}", tables)}));
+                    return;
+                }
+                // read the applied bits back from the real font; exactly entries offered this round may have been marked
+                let mut newly_marked = 0usize;
+                for t in tables.iter_mut() {
+                    let Some(tb) = table_bytes_of(&new_font, t.tag) else {
+                        st.oracle_failure(json!({"key": format!("extension:table-lost/{}", key), "what": "mapping table missing after glyph-keyed application"}));
+                        return;
+                    };
+                    for e in &t.entries {
+                        let set = tb.get(e.bit / 8).map(|b| b & (1 << (e.bit % 8)) != 0).unwrap_or(false);
+                        if set && !e.ignored && !t.applied.contains(&e.bit) {
+                            t.applied.push(e.bit);
+                            newly_marked += 1;
+                            if !cands.iter().any(|c| c.table == t.tag && c.bit == e.bit) {
+                                st.oracle_failure(json!({"key": format!("extension:marked-unoffered/{}", key), "what": "an entry that was not offered was marked applied", "bit": e.bit}));
+                            }
+                        }
+                    }
+                }
+                if newly_marked == 0 {
+                    st.oracle_failure(json!({"key": format!("extension:no-bit-marked/{}", key), "what": "Ok glyph-keyed round marked no mapping entry as applied"}));
+                }
+                if round > 0 {
+                    st.count("gloop.multi_round");
+                }
+                if cands.len() > uris.len() {
+                    st.count("gloop.shared_uri_round");
+                }
+                font = new_font;
+            }
+        }
+    }
+    if !finished {
+        st.oracle_failure(json!({"key": "extension:no-progress-round", "what": "extension did not reach a fixpoint or an error within the round cap", "case": key, "cap": cap}));
+    }
+}
+
 // ---------------------------------------------------------------- main
 
 fn main() {
@@ -960,7 +1135,7 @@ fn main() {
         "From Coq Require Import ZArith List. Import ListNotations. Open Scope Z_scope.\nFrom FV Require Import Lib.Cases C19.Model.",
         "case_ty",
         "check_case",
-        340,
+        360,
     );
     let nfonts = if thorough { 3600 } else { 450 };
     for fi in 0..nfonts {
@@ -1010,6 +1185,12 @@ fn main() {
                             t.applied.push(e.bit);
                         }
                     }
+                }
+            }
+            if ai == 0 && o.mode == 0 && !malformed && fi % 9 != 7 && !same_cid {
+                for li in 0..3 {
+                    let d = if li == 0 { ADef { cps: ACps::Excl(vec![]), feats: None, ds: None } } else { gen_def(&mut rng) };
+                    run_glyph_loop(&mut rng, &tables, &d, &rank, &mut st, &mut cw, &format!("font{}/gloop{}", fi, li));
                 }
             }
             let font = build_font(&tables);
